@@ -67,7 +67,9 @@ def check_running(case, ctx):
     from sigpyproc.core import stats
 
     n, w, method = case["n"], case["w"], case["method"]
-    x = make(case["dtype"], n, case["seed"], case["kind"])
+    from vlib.strategies import relayout
+
+    x = relayout(make(case["dtype"], n, case["seed"], case["kind"]), ["C", "strided_view", "reversed_view"][case["seed"] % 3])
     try:
         out = stats.running_filter(x, w, method=method)
     except Exception as exc:  # noqa: BLE001
@@ -138,8 +140,11 @@ def check_decimate(case, ctx):
     from sigpyproc.core import kernels, stats
 
     d1, d2, f1, f2, method = case["d1"], case["d2"], case["f1"], case["f2"], case["method"]
-    x2 = make(case["dtype"], (d1, d2), case["seed"], case["kind"])
-    ctxt = f"shape=({d1},{d2}) factors=({f1},{f2}) {method} {case['dtype']} kind={case['kind']} seed={case['seed']}"
+    from vlib.strategies import relayout
+
+    lay2 = ["C", "F", "transposed_view", "strided_view"][case["seed"] % 4]
+    x2 = relayout(make(case["dtype"], (d1, d2), case["seed"], case["kind"]), lay2)
+    ctxt = f"layout={lay2} shape=({d1},{d2}) factors=({f1},{f2}) {method} {case['dtype']} kind={case['kind']} seed={case['seed']}"
     ref2 = reduce_ref(x2, f1, f2, method)
     AM = float(np.abs(x2.astype(np.float64)).max())
 
